@@ -36,10 +36,10 @@ func checkBurst(h *hist, d *burstDB, c *kit.Case, mode string, readers []*rRec) 
 				continue
 			}
 			seen[rr.Key] = true
-			fr := &rRec{ID: len(readers), Kind: "read", Key: rr.Key, Late: true, Conn: len(readers) % len(h.sts)}
+			fr := &rRec{ID: len(readers), Kind: "read", Key: rr.Key, Late: true, Conn: len(readers) % len(h.sts), ReuseOf: -1}
 			fr.st = h.sts[fr.Conn]
 			fr.Inv = kit.Stamp()
-			fr.Got, fr.err = burstRead(hctx, h, d, fr, slotOfKey(h, rr.Key), func() float64 { return 1 }, false)
+			fr.Got, fr.err = burstRead(hctx, h, d, fr, slotOfKey(h, rr.Key), func() float64 { return 1 }, false, new(row))
 			fr.Ret = kit.Stamp()
 			readers = append(readers, fr)
 		}
@@ -79,11 +79,18 @@ func checkBurst(h *hist, d *burstDB, c *kit.Case, mode string, readers []*rRec) 
 			viol("C06/conc/queries-overlap/"+keyClass(h, key)+where, fmt.Sprintf("%d database queries for %s ran at the same time", g.Max(), key))
 		}
 	}
-	followers, lateHits, crossFollowers := 0, 0, 0
+	followers, lateHits, crossFollowers, scribbleFollowers, reuseFollowers := 0, 0, 0, 0, 0
 	follower := func(rr *rRec, q *qRec) {
 		followers++
 		if readers[q.Owner].Conn != rr.Conn {
 			crossFollowers++
+		}
+		// the caller whose query it shares overwrites its own result object as soon as its read returned
+		if own := readers[q.Owner]; own.Scribble {
+			scribbleFollowers++
+			if own.ReuseBy > 0 {
+				reuseFollowers++
+			}
 		}
 	}
 	if mode == "outage" {
@@ -109,6 +116,8 @@ func checkBurst(h *hist, d *burstDB, c *kit.Case, mode string, readers []*rRec) 
 					}
 				}
 				switch {
+				case src == nil && scribbled(rr.Got):
+					viol("C06/conc/result-changed-by-another-caller-after-its-read-returned", fmt.Sprintf("reader %d returned %v: no query produced that, (part of) it is what another caller wrote into ITS OWN result object after its read had returned", rr.ID, rr.Got))
 				case src == nil:
 					viol("C06/conc/result-of-no-query", fmt.Sprintf("reader %d returned %v, which no query produced", rr.ID, rr.Got))
 				case slotOfKey(h, src.Key) != slot:
@@ -134,6 +143,10 @@ func checkBurst(h *hist, d *burstDB, c *kit.Case, mode string, readers []*rRec) 
 					follower(rr, q)
 				}
 			case errors.Is(rr.err, d.nf):
+				if rr.err != d.nf {
+					// the unchanged tree hands the configured value itself to every reader, whatever the query's error looked like
+					viol("C06/notfound/not-the-configured-value/"+shapeClass(d.shape), fmt.Sprintf("reader %d returned %q (%T), which is not the configured not-found error %q itself (the queries report an absent row in shape %s)", rr.ID, rr.err.Error(), rr.err, d.nf.Error(), shapeName(d.shape)))
+				}
 				ok := false
 				for _, q := range qs {
 					if q.Outcome == "notfound" && slotOfKey(h, q.Key) == slot && q.Start < rr.Ret {
@@ -179,6 +192,9 @@ func checkBurst(h *hist, d *burstDB, c *kit.Case, mode string, readers []*rRec) 
 		if mode == "error" || mode == "outage" {
 			mustAbsent[key] = "C06/dberr/cached/concurrent"
 		}
+		if mode == "notfound" && negShape(d.shape) {
+			mustAbsent[key] = "C06/dberr/cached/notfound-" + shapeClass(d.shape)
+		}
 	}
 	h.log = append(h.log, fmt.Sprintf("burst(%s,%d readers)", mode, len(readers)))
 	h.prev = map[string]entry{}
@@ -203,6 +219,9 @@ func checkBurst(h *hist, d *burstDB, c *kit.Case, mode string, readers []*rRec) 
 	}
 	sort.Slice(evs, func(i, j int) bool { return evs[i].s < evs[j].s })
 	parts := []any{h.cfg.Flavour, mode, len(h.sts)}
+	if mode == "notfound" {
+		parts = append(parts, d.shape)
+	}
 	for _, e := range evs {
 		parts = append(parts, e.op)
 	}
@@ -212,6 +231,23 @@ func checkBurst(h *hist, d *burstDB, c *kit.Case, mode string, readers []*rRec) 
 	c.Obs("burst_queries", int64(len(qs)))
 	c.Obs("burst_followers_sharing_a_query", int64(followers))
 	c.Obs("burst_late_readers_served_from_cache", int64(lateHits))
+	c.Obs("burst_followers_of_a_caller_that_scribbles_over_its_result", int64(scribbleFollowers))
+	c.Obs("burst_followers_of_a_caller_that_reuses_its_result_object", int64(reuseFollowers))
+	nfQ := 0
+	for _, q := range qs {
+		if q.Outcome == "notfound" || q.Outcome == "error" && mode == "notfound" {
+			nfQ++
+		}
+	}
+	if mode == "notfound" {
+		c.Obs("bursts_notfound_shape_"+shapeName(d.shape), 1)
+		c.Obs("burst_queries_reporting_absent_row", int64(nfQ))
+	}
+	for _, rr := range readers {
+		if rr.ReuseOf >= 0 {
+			c.Obs("burst_reads_into_a_reused_object", 1)
+		}
+	}
 	if wf {
 		c.Obs("bursts_store_refuses_writes", 1)
 		c.Obs("burst_followers_sharing_a_query_store_refuses_writes", int64(followers))
